@@ -153,7 +153,7 @@ def tlc_once(cfg, module, scratch, overrides=None, simulate=None, workers=None, 
             shutil.copy(os.path.join(SPEC, f), work)
     for name, content in (extra_files or {}).items():
         open(os.path.join(work, name), 'w').write(content)
-    text = open(os.path.join(SPEC, 'cfg', cfg)).read()
+    text = open(cfg if os.path.isabs(cfg) else os.path.join(SPEC, 'cfg', cfg)).read()
     for k, v in (overrides or {}).items():
         text, n = re.subn(r'(?m)^(\s*)%s\s*(=|<-).*$' % re.escape(k), (r'\g<1>%s ' % k) + v.replace('\\', '\\\\') if v.startswith('<-') else (r'\g<1>%s = ' % k) + v.replace('\\', '\\\\'), text)
         if n != 1:
@@ -207,6 +207,21 @@ def tlc_once(cfg, module, scratch, overrides=None, simulate=None, workers=None, 
         r['zero_coverage'] = re.findall(r'(?m)^<(\w+) line .*>: 0:0$', log)
     shutil.rmtree(work, ignore_errors=True)
     return r
+
+
+def trace_cfg(gen_cfg, scratch, trace_pend=True):
+    """the configuration of a trace judge (spec/WalletTrace.tla) derived from a generator configuration:
+    same universe constants, no queue bound, TraceSpec instead of GenSpec, acceptance by NotAccepted"""
+    text = open(os.path.join(SPEC, 'cfg', gen_cfg)).read()
+    text = text.replace('SPECIFICATION GenSpec', 'SPECIFICATION TraceSpec')
+    text, n = re.subn(r'(?m)^(\s*)MaxQ\s*=.*$', r'\g<1>MaxQ = 99', text)
+    text, m = re.subn(r'(?m)^INVARIANTS\s*\n\s*Emit\s*$', 'INVARIANTS\n    NotAccepted\nCONSTRAINT\n    Progress\nPOSTCONDITION\n    PrintProgress', text)
+    text, k = re.subn(r'(?m)^CONSTANTS\s*$', 'CONSTANTS\n    TracePend = %s' % ('TRUE' if trace_pend else 'FALSE'), text, count=1)
+    if n != 1 or m != 1 or k != 1 or 'SPECIFICATION TraceSpec' not in text:
+        raise Infra('trace_cfg: %s does not have the expected shape' % gen_cfg)
+    p = os.path.join(scratch.dir, 'Trace_%s_%s' % ('P' if trace_pend else 'N', gen_cfg))
+    open(p, 'w').write(text)
+    return p
 
 
 def require_clean(r, what):
